@@ -1,7 +1,11 @@
 (* C05 -- streaming: every proper prefix of an accepted header is reported incomplete.
    Statements only; proofs in Proofs/V1Prefix.v (v1), Proofs/AutoProps.v (v2, auto, flags). *)
 From PPP Require Import Base.Bytes Std.Utf8 Std.Text Model.V1 Model.V2 Model.Auto
-  Proofs.BytesFacts Proofs.V1Text Proofs.V1Final Proofs.V1Props Proofs.AutoProps Proofs.V1Prefix Proofs.Stream.
+  Proofs.BytesFacts Proofs.V1Text Proofs.V1Final Proofs.V1Props Proofs.AutoProps Proofs.V1Prefix Proofs.Stream
+  Proofs.Consume Proofs.StreamPipe Proofs.Senders.
+From Coq Require Import List ZArith.
+Import ListNotations.
+Local Open Scope N_scope.
 
 (* v1 lines in US-ASCII: byte form, text form and auto-detecting entry point *)
 Theorem C05_v1 : forall x hd k, p1 x = Ok hd -> ascii (text hd) = true -> k < lenN (text hd) ->
@@ -53,3 +57,50 @@ Theorem C05_stream_auto_v2 : forall x h reads, wf_bytes x = true -> p2 x = Ok h 
   receive pa is_incomplete_a [] reads = Some (RV2 (Ok h)).
 Proof. exact receive_auto_v2. Qed.
 Print Assumptions C05_stream_auto_v2.
+
+(* Streaming and pipelining together (Proofs/StreamPipe.v).  The receiver appends every read to its buffer and
+   then removes as many complete headers as the buffer holds (on_read; drain is the loop of C04_pipeline).
+   For EVERY way of cutting a byte stream into reads -- empty reads, reads that end inside a header, reads that
+   span several headers -- it ends with exactly what a one-shot drain of the whole stream yields: *)
+Theorem C05_reads_equal_one_shot : forall reads, wf_bytes (concat reads) = true ->
+  fold_left on_read reads ([], []) = drain_full (concat reads).
+Proof. exact reads_equal_one_shot. Qed.
+Print Assumptions C05_reads_equal_one_shot.
+
+(* hence any number of headers of both versions, back to back, however the stream arrives, are delivered one
+   by one, in order, and the bytes after the last one are what is left in the buffer; no proper prefix of
+   the stream delivers a header early or a different one (the state after each read is the one-shot drain of
+   the bytes received so far) *)
+Theorem C05_stream_pipeline : forall fs rest reads,
+  Forall self_parsing fs -> stuck rest -> concat reads = concat (map frame_bytes fs) ++ rest ->
+  wf_bytes (concat reads) = true ->
+  fold_left on_read reads ([], []) = (fs, rest).
+Proof. exact stream_pipeline. Qed.
+Print Assumptions C05_stream_pipeline.
+
+(* in particular everything the crate's own encoders emit (C07, C08): a peer that builds v2 headers and formats
+   v1 lines from well-formed values and sends them back to back is understood frame by frame, in order,
+   whatever the network does to the segmentation *)
+Theorem C05_senders_stream : forall ms rest reads,
+  forallb wf_sent ms = true -> stuck rest -> concat reads = concat (map sent_bytes ms) ++ rest ->
+  wf_bytes (concat reads) = true ->
+  fold_left on_read reads ([], []) = (map sent_frame ms, rest).
+Proof. exact senders_stream. Qed.
+Print Assumptions C05_senders_stream.
+
+(* and nothing is ever delivered early: no proper prefix of a header -- of either version, ASCII or not -- is
+   accepted as a header (as itself or as a different one) by the auto-detecting parser *)
+Theorem C05_never_early : forall fr k, self_parsing fr -> wf_bytes (frame_bytes fr) = true -> k < lenN (frame_bytes fr) ->
+  stuck (takeN k (frame_bytes fr)).
+Proof. exact prefix_not_frame. Qed.
+Print Assumptions C05_never_early.
+
+Example C05_stream_pipeline_example :
+  let v1 := [80;82;79;88;89;32;85;78;75;78;79;87;78;13;10] in
+  let v2 := SIG ++ [33; 17; 0; 12; 1;2;3;4; 5;6;7;8; 0;80; 1;187] in
+  let s := v1 ++ v2 ++ v1 in
+  match fold_left on_read [takeN 7 s; []; sliceN 7 20 s; dropN 20 s; [71]] ([], []) with
+  | ([F1 a; F2 b; F1 c], rest) => text a = v1 /\ hbytes b = v2 /\ text c = v1 /\ rest = [71]
+  | _ => False
+  end.
+Proof. vm_compute. repeat split. Qed.
